@@ -152,6 +152,14 @@ fn gen_case(rng: &mut Rng) -> Case {
             lines.push("end".to_string());
         }
     }
+    // a child process that writes to the inherited stdout between the script's own lines (the order of the two must
+    // be kept). Not next to `print`: text without a line break legitimately waits in stdout's line buffer.
+    if rng.chance(1, 8) && !lines.iter().any(|l| l.trim_start().starts_with("print ") || l.trim_start() == "print") {
+        for k in 0..1 + rng.usize(2) {
+            let at = rng.usize(lines.len() + 1);
+            lines.insert(at, format!("exec /bin/echo child{}", k));
+        }
+    }
     if rng.chance(1, 40) {
         // more output than a pipe buffer holds, and a script of a few hundred lines
         let long = "0123456789".repeat(40);
@@ -181,9 +189,36 @@ fn gen_case(rng: &mut Rng) -> Case {
     Case { entropy: rng.next_u64(), form, lines, fault, included }
 }
 
+/// the reference run's `exec`: what `/bin/echo words...` without an output variable adds to the inherited stdout, written
+/// into the run's own stream at the moment the command runs
+#[derive(Clone)]
+struct ExecEcho;
+
+impl duckscript::types::command::Command for ExecEcho {
+    fn name(&self) -> String {
+        "std::process::Execute".to_string()
+    }
+    fn aliases(&self) -> Vec<String> {
+        vec!["exec".to_string()]
+    }
+    fn clone_and_box(&self) -> Box<dyn duckscript::types::command::Command> {
+        Box::new(self.clone())
+    }
+    fn run(&self, ctx: duckscript::types::command::CommandInvocationContext) -> duckscript::types::command::CommandResult {
+        use std::io::Write;
+        if ctx.arguments.first().map(|a| a == "/bin/echo").unwrap_or(false) {
+            let _ = writeln!(ctx.env.out, "{}", ctx.arguments[1..].join(" "));
+            sim::with_core(|c| c.probe("child-process-output-between-the-script's-lines"));
+        }
+        duckscript::types::command::CommandResult::Continue(None)
+    }
+}
+
 fn library_context() -> Context {
     let mut context = Context::new();
     duckscriptsdk::load(&mut context.commands).expect("sdk load");
+    context.commands.remove("exec");
+    context.commands.set(Box::new(ExecEcho)).expect("reference exec");
     context
 }
 
